@@ -16,6 +16,7 @@ import (
 // C10: RESP codec.
 //
 //	c10.dec <bufsize> <hexchunk>…   -> messages decoded from the chunked stream: m1;m2;… (or -)
+//	c10.dece <bufsize> <hexchunk>…  -> the same; the read that delivers the last bytes returns io.EOF with them
 //	c10.enc <value>                  -> hex of the encoder's output
 //	c10.btoi <hex>                   -> ok <n> | err
 //	c10.itoa <int>                   -> hex
@@ -45,7 +46,7 @@ func (c10) Exec(op string) string {
 		return "bad-op"
 	}
 	switch f[0] {
-	case "c10.dec":
+	case "c10.dec", "c10.dece":
 		sz, err := strconv.Atoi(f[1])
 		if err != nil {
 			return "bad-op"
@@ -59,7 +60,7 @@ func (c10) Exec(op string) string {
 			chunks = append(chunks, b)
 		}
 		return recoverStr(func() string {
-			d := redis.VerifNewDecoder(&hx.ChunkReader{Chunks: chunks}, sz)
+			d := redis.VerifNewDecoder(&hx.ChunkReader{Chunks: chunks, ErrWithLast: f[0] == "c10.dece"}, sz)
 			var vals []*redis.RespValue
 			for {
 				v, err := d.Decode()
@@ -303,6 +304,7 @@ func (c10) Gen(r *hx.Run) {
 			}
 			ch := cut(rng, data, s)
 			r.Do(decOp(sz, ch), nontriv || len(ch) >= 2, fmt.Sprintf("dec-cut%d", s))
+			r.Do(strings.Replace(decOp(sz, ch), "c10.dec ", "c10.dece ", 1), nontriv || len(ch) >= 2, "dec-data-with-eof")
 		}
 	}
 	// 2. exhaustive split points (two chunks, and byte-at-a-time) for short messages
@@ -319,6 +321,7 @@ func (c10) Gen(r *hx.Run) {
 		}
 		for c := 1; c < len(w); c++ {
 			r.Do(decOp(32, [][]byte{w[:c], w[c:]}), true, "dec-allsplits")
+			r.Do(strings.Replace(decOp(32, [][]byte{w[:c], w[c:]}), "c10.dec ", "c10.dece ", 1), true, "dec-data-with-eof")
 		}
 	}
 	// 3. inline commands (and their array form goes through the same decoder)
